@@ -1,4 +1,4 @@
-import Sentinel.Lemmas.MetricLog2
+import Sentinel.Lemmas.MetricLog3
 /-!
 # C17 — Metric log is searchable, bounded, and survives truncation at any byte
 (property-level statements; helper lemmas live in `Sentinel/Lemmas/MetricLog.lean`)
@@ -461,6 +461,138 @@ theorem search_after_idx_cut_partial (now maxSize maxFiles : Nat) (hnow : now / 
   rw [hcut, if_pos hany]
   exact hx
 
+/-! ## 6b. for every history the writer model produces, with only the regions of the findings excluded
+
+The hypotheses `Covered` and "fresh searcher" of the theorems above are discharged for the directories
+produced by `log.new` + any sequence of `log.write` / restarts:
+
+* `cacheOk fs c begin = false` — the query is outside `metriclog-cache-skip` (the driver's region is exactly
+  `cacheOk = true`): then any searcher state behaves like a fresh one (`find_cache_miss_eq_fresh`, for arbitrary bytes);
+* `∃ en ∈ allEnts fs, en.1 ≤ begin/1000` and `∀ c ∈ reopenSecs evs, c < begin/1000` — `begin` is not before the first
+  retained index entry and after the creation seconds of restarted writers: the query is outside
+  `metriclog-first-second` / `metriclog-orphan-head` (`covered_outside_regions`; `unindexed_only_in_head` says that
+  for one writer the items without an index entry are exactly the head of the log in front of the first
+  retained entry — the creation second, or a second whose entry went with a removed file);
+* the torn-line region stays what it is in `search_after_data_cut_*` (the one `extra` item).
+
+What remains a hypothesis: `hsize` (every data file shorter than 2^64 bytes, so that offsets fit the index
+field; not derivable, the model's files are unbounded), `hnow` / `HistValid` / `EvsOK` (arguments in the range
+of their Go types, legal resource names — any bytes but `|`, LF, CR, so all the awkward names —, restarts
+not before the last second written). -/
+
+theorem find_cache_miss_eq_fresh (fs : Dir) (c : Cache) (b e : Nat) (res : Bytes) (h : cacheOk fs c b = false) :
+    (find fs c b e res).2 = (find fs {} b e res).2 :=
+  search_cache_miss _ fs c b h
+
+theorem findFrom_cache_miss_eq_fresh (fs : Dir) (c : Cache) (b m : Nat) (h : cacheOk fs c b = false) :
+    (findFrom fs c b m).2 = (findFrom fs {} b m).2 :=
+  search_cache_miss _ fs c b h
+
+/-- the invariant behind the next theorems, for every history -/
+theorem head_of_history (now maxSize maxFiles : Nat) (evs : List Ev) (hok : EvsOK (Writer.new now maxSize maxFiles) evs) :
+    Head (runEvents (Writer.new now maxSize maxFiles) evs) (runEvents (Writer.new now maxSize maxFiles) evs).latestOpSec
+      (reopenSecs evs) := by
+  have := head_runEvents (Writer.new now maxSize maxFiles) evs [] hok (inv_new now maxSize maxFiles) (head_new now maxSize maxFiles)
+  simpa using this
+
+/-- **outside the first-second / orphan-head regions the index covers the query** -/
+theorem covered_outside_regions (now maxSize maxFiles : Nat) (evs : List Ev)
+    (hok : EvsOK (Writer.new now maxSize maxFiles) evs) (b : Nat)
+    (hfirst : ∃ en ∈ allEnts (runEvents (Writer.new now maxSize maxFiles) evs).files, en.1 ≤ b / 1000)
+    (hre : ∀ c ∈ reopenSecs evs, c < b / 1000) :
+    Covered (runEvents (Writer.new now maxSize maxFiles) evs).files b :=
+  covered_of_head (head_of_history now maxSize maxFiles evs hok) b hfirst hre
+
+/-- one writer: a retained item whose second has no index entry lies in front of every retained index
+    entry (all such items form the unindexed head of the log) -/
+theorem unindexed_only_in_head (now maxSize maxFiles : Nat) (hist : List (Nat × List Item)) (hv : HistValid hist) :
+    ∀ x ∈ retained (runWrites (Writer.new now maxSize maxFiles) hist).files,
+      (∃ e ∈ allEnts (runWrites (Writer.new now maxSize maxFiles) hist).files, e.1 = x.ts / 1000) ∨
+      (∀ e ∈ allEnts (runWrites (Writer.new now maxSize maxFiles) hist).files, x.ts / 1000 < e.1) := by
+  intro x hx
+  rw [runWrites_eq_runEvents] at hx ⊢
+  have h := head_of_history now maxSize maxFiles _ (evsOK_of_histValid _ hist hv)
+  rw [reopenSecs_writes] at h
+  rcases h.head x hx with h1 | h2 | h3
+  · exact Or.inl h1
+  · exact Or.inr h2
+  · simp at h3
+
+/-- **search_complete, for every history of writes and restarts, any searcher state, only the finding
+    regions excluded** -/
+theorem search_complete_for_every_history (now maxSize maxFiles : Nat) (hnow : now / 1000 < 2 ^ 64)
+    (evs : List Ev) (hok : EvsOK (Writer.new now maxSize maxFiles) evs) (c : Cache) (b e : Nat) (res : Bytes)
+    (hsize : ∀ f ∈ (runEvents (Writer.new now maxSize maxFiles) evs).files, f.data.length < 2 ^ 64)
+    (hcache : cacheOk (runEvents (Writer.new now maxSize maxFiles) evs).files c b = false)
+    (hfirst : ∃ en ∈ allEnts (runEvents (Writer.new now maxSize maxFiles) evs).files, en.1 ≤ b / 1000)
+    (hre : ∀ s ∈ reopenSecs evs, s < b / 1000) :
+    (find (runEvents (Writer.new now maxSize maxFiles) evs).files c b e res).2
+      = specFind (retained (runEvents (Writer.new now maxSize maxFiles) evs).files) b e res := by
+  rw [find_cache_miss_eq_fresh _ c b e res hcache]
+  exact search_complete_partial_events now maxSize maxFiles hnow evs hok b e res hsize
+    (covered_outside_regions now maxSize maxFiles evs hok b hfirst hre)
+
+/-- **… for every write history of one writer** (`log.new` + any sequence of `log.write`: any sizes, rolls,
+    removals): the answer is exactly the retained items in range with the resource, in timestamp order,
+    each once, whenever the cached position is not used and `begin` is not before the first retained
+    index entry -/
+theorem search_complete_for_every_write_history (now maxSize maxFiles : Nat) (hnow : now / 1000 < 2 ^ 64)
+    (hist : List (Nat × List Item)) (hv : HistValid hist) (c : Cache) (b e : Nat) (res : Bytes)
+    (hsize : ∀ f ∈ (runWrites (Writer.new now maxSize maxFiles) hist).files, f.data.length < 2 ^ 64)
+    (hcache : cacheOk (runWrites (Writer.new now maxSize maxFiles) hist).files c b = false)
+    (hfirst : ∃ en ∈ allEnts (runWrites (Writer.new now maxSize maxFiles) hist).files, en.1 ≤ b / 1000) :
+    (find (runWrites (Writer.new now maxSize maxFiles) hist).files c b e res).2
+      = specFind (retained (runWrites (Writer.new now maxSize maxFiles) hist).files) b e res := by
+  rw [runWrites_eq_runEvents] at hsize hcache hfirst ⊢
+  exact search_complete_for_every_history now maxSize maxFiles hnow _ (evsOK_of_histValid _ hist hv) c b e res
+    hsize hcache hfirst (by rw [reopenSecs_writes]; simp)
+
+/-- **from_time, for every history, any searcher state, only the finding regions excluded** -/
+theorem from_time_complete_for_every_history (now maxSize maxFiles : Nat) (hnow : now / 1000 < 2 ^ 64)
+    (evs : List Ev) (hok : EvsOK (Writer.new now maxSize maxFiles) evs) (c : Cache) (b m : Nat) (hq : 0 < m ∨ 0 < b / 1000)
+    (hsize : ∀ f ∈ (runEvents (Writer.new now maxSize maxFiles) evs).files, f.data.length < 2 ^ 64)
+    (hcache : cacheOk (runEvents (Writer.new now maxSize maxFiles) evs).files c b = false)
+    (hfirst : ∃ en ∈ allEnts (runEvents (Writer.new now maxSize maxFiles) evs).files, en.1 ≤ b / 1000)
+    (hre : ∀ s ∈ reopenSecs evs, s < b / 1000) :
+    (findFrom (runEvents (Writer.new now maxSize maxFiles) evs).files c b m).2
+      = specFrom ((runEvents (Writer.new now maxSize maxFiles) evs).files.map (·.lines)) b m := by
+  rw [findFrom_cache_miss_eq_fresh _ c b m hcache]
+  exact (from_time_complete_partial_events now maxSize maxFiles hnow evs hok b m hq hsize
+    (covered_outside_regions now maxSize maxFiles evs hok b hfirst hre)).1
+
+/-- **after a crash, for every history**: data file cut at any byte `k` (the full-buffer rule and the torn
+    line are inside `tornParse`), any searcher state whose cached position is not used on the cut directory -/
+theorem search_after_data_cut_for_every_history (now maxSize maxFiles : Nat) (hnow : now / 1000 < 2 ^ 64)
+    (evs : List Ev) (hok : EvsOK (Writer.new now maxSize maxFiles) evs) (init : Dir) (cur : File)
+    (hfiles : (runEvents (Writer.new now maxSize maxFiles) evs).files = init ++ [cur])
+    (k : Nat) (c : Cache) (b e : Nat) (res : Bytes)
+    (hsize : ∀ f ∈ (runEvents (Writer.new now maxSize maxFiles) evs).files, f.data.length < 2 ^ 64)
+    (hcache : cacheOk (cutData (init ++ [cur]) k) c b = false)
+    (hfirst : ∃ en ∈ allEnts (runEvents (Writer.new now maxSize maxFiles) evs).files, en.1 ≤ b / 1000)
+    (hre : ∀ s ∈ reopenSecs evs, s < b / 1000) :
+    ∃ extra, (find (cutData (init ++ [cur]) k) c b e res).2
+        = specFind (retained init ++ wholeLines cur.lines k) b e res ++ extra ∧
+      (∀ x ∈ extra, x ∈ tornParse (fragment cur.lines k)) ∧ (fragment cur.lines k = [] → extra = []) := by
+  obtain ⟨extra, h1, h2, h3, _⟩ := search_after_data_cut_partial now maxSize maxFiles hnow evs hok init cur hfiles k b e res hsize
+    (covered_outside_regions now maxSize maxFiles evs hok b hfirst hre)
+  exact ⟨extra, by rw [find_cache_miss_eq_fresh _ c b e res hcache]; exact h1, h2, h3⟩
+
+/-- … and the index file cut at any byte `k` -/
+theorem search_after_idx_cut_for_every_history (now maxSize maxFiles : Nat) (hnow : now / 1000 < 2 ^ 64)
+    (evs : List Ev) (hok : EvsOK (Writer.new now maxSize maxFiles) evs) (init : Dir) (cur : File)
+    (hfiles : (runEvents (Writer.new now maxSize maxFiles) evs).files = init ++ [cur])
+    (k : Nat) (c : Cache) (b e : Nat) (res : Bytes)
+    (hsize : ∀ f ∈ (runEvents (Writer.new now maxSize maxFiles) evs).files, f.data.length < 2 ^ 64)
+    (hcache : cacheOk (cutIdx (init ++ [cur]) k) c b = false)
+    (hfirst : ∃ en ∈ allEnts (runEvents (Writer.new now maxSize maxFiles) evs).files, en.1 ≤ b / 1000)
+    (hre : ∀ s ∈ reopenSecs evs, s < b / 1000) :
+    (find (cutIdx (init ++ [cur]) k) c b e res).2
+      = (if (allEnts init ++ cur.ents.take (k / 16)).any (fun en => decide (en.1 ≥ b / 1000))
+         then specFind (retained (init ++ [cur])) b e res else []) := by
+  rw [find_cache_miss_eq_fresh _ c b e res hcache]
+  exact (search_after_idx_cut_partial now maxSize maxFiles hnow evs hok init cur hfiles k b e res hsize
+    (covered_outside_regions now maxSize maxFiles evs hok b hfirst hre)).1
+
 /-! ## 7. what the pinned code violates (known findings, `known/C17.jsonl`) -/
 
 def mk (res : Nat) (pass rt : Nat) : Item :=
@@ -506,6 +638,15 @@ theorem orphan_head_witness :
     specFind (retained dirOrphan) 2000 9000 [] =
       [{ mk 97 2 5 with ts := 2500 }, { mk 98 2 5 with ts := 2500 }, { mk 97 3 5 with ts := 3000 }] ∧
     (find dirOrphan {} 2000 9000 []).2 = [{ mk 97 3 5 with ts := 3000 }] := by
+  decide
+
+/-- the side conditions of section 6b are satisfiable with a non-empty answer: on `dirCache` a searcher whose
+    cache holds a later position (`begin` before the cached second) is outside the cache-skip region, and
+    `begin` = second 2 is the first retained index entry -/
+example :
+    cacheOk dirCache (find dirCache {} 4000 9000 []).1 2000 = false ∧
+    (∃ en ∈ allEnts dirCache, en.1 ≤ 2000 / 1000) ∧
+    (find dirCache (find dirCache {} 4000 9000 []).1 2000 9000 []).2 = specFind (retained dirCache) 2000 9000 [] := by
   decide
 
 /-! ## 8. the full statements (not provable for the pinned code: refuted by the witnesses above) -/
